@@ -52,7 +52,13 @@ func (g *c35G) sdpFmtp(codec string, pt string) []string {
 	add := func(params string) { lines = append(lines, "a=fmtp:"+pt+" "+params) }
 	switch codec {
 	case "H264":
-		switch g.oddCase(4, 5) {
+		switch g.oddCase(4, 6) {
+		case 5: // a parameter set that is present but empty
+			sprop := g.pick(","+b64(c35PPS), b64(c35SPS)+",", ",")
+			if g.x.AvoidKey(c35KeyH264EmptySprop) {
+				sprop = "Zw==,aA=="
+			}
+			add("packetization-mode=1;sprop-parameter-sets=" + sprop)
 		case 0: // none: missing sprop
 		case 1:
 			add("packetization-mode=1")
